@@ -159,6 +159,7 @@ Lemma process_step_gen i T Dr B e : Sim i T Dr B -> id_fresh K (eid (fe e)) -> ~
   exists bl i' L, step cap pol sample i (OpP (ae e)) = (ObsP None bl (l_ldf (i_st i')) (l_epoch (i_st i')), i', false) /\
     Seg vals T' 0 (map fst (B ++ map blk_obs bl)) L /\
     (forall b, In b (B ++ map blk_obs bl) -> snd b = ElectionSpec.cheaters_of vals T' (snd (fst b))) /\
+    (forall b, In b bl -> b_seal b = sf (b_frame b)) /\
     ((Sim i' T' (e :: Dr) (B ++ map blk_obs bl) /\ l_ctr (i_st i') = l_ctr (i_st i) /\ l_epoch (i_st i') = ep /\
       L = l_ldf (i_st i') /\ NoSeal sf (l_ldf (i_st i)) L) \/
      (exists nv', l_ldf (i_st i) < L /\ NoSeal sf (l_ldf (i_st i)) (L - 1) /\ sf L = Some nv' /\
@@ -272,7 +273,7 @@ Proof.
     assert (Ep' : l_epoch st' = ep).
     { destruct D' as [S' [[C' _ _ _] _]]. apply (co_epoch _ _ _ _ _ _ _ _ C'). }
     exists bl, {| i_st := st'; i_es := es1; i_proc := a_id (ae e) :: i_proc i |}, L. split; [reflexivity|].
-    split; [exact SGall|]. split; [exact CHall|]. left. cbn [i_st i_es i_proc].
+    split; [exact SGall|]. split; [exact CHall|]. split; [intros b Hb; apply (Hsl b Hb)|]. left. cbn [i_st i_es i_proc].
     split; [|split; [rewrite CC, Ct2; reflexivity | split; [exact Ep' | split; [exact EL | exact NS]]]].
     constructor; cbn [i_st i_es i_proc].
     + exact W'.
@@ -289,7 +290,7 @@ Proof.
       unfold sealed_in. apply existsb_exists. exists b. split; [exact Hb|]. destruct (Hsl b Hb) as [Sl _].
       unfold fa in Eb. inversion Eb as [[Ef Ea]]. rewrite Sl, Ef, Sf. reflexivity. }
     rewrite Hseal. subst st'. rewrite Ct2.
-    exists bl, {| i_st := sealed_state ep nv' (l_ctr st); i_es := es1; i_proc := [] |}, L. split; [reflexivity|]. split; [exact SGall|]. split; [exact CHall|].
+    exists bl, {| i_st := sealed_state ep nv' (l_ctr st); i_es := es1; i_proc := [] |}, L. split; [reflexivity|]. split; [exact SGall|]. split; [exact CHall|]. split; [intros b Hb; apply (Hsl b Hb)|].
     right. exists nv'. split; [exact Lt|]. split; [exact NS|]. split; [exact Sf | reflexivity].
 Qed.
 
@@ -305,7 +306,7 @@ Lemma process_step cap ep lam vals (Hvals : vals_ok vals) J K i T Dr B e : Sim e
 Proof.
   intros HS Fe Je PK NL CR EW FO Hff.
   destruct (process_step_gen cap ep lam vals Hvals J K [] (fun _ => None) (fun _ _ _ _ => eq_refl) i T Dr B e HS Fe Je PK NL CR EW FO Hff)
-    as [bl [i' [L [E [_ [_ [(HS' & C & Ep & _)|(nv' & _ & _ & Sf & _)]]]]]]]; [|discriminate].
+    as [bl [i' [L [E [_ [_ [_ [(HS' & C & Ep & _)|(nv' & _ & _ & Sf & _)]]]]]]]]; [|discriminate].
   exists bl, i'. rewrite Ep in E. auto.
 Qed.
 
